@@ -20,6 +20,10 @@ def c09_classify(c, i):
         return ["real-elasticsearch-output", "es-retry=" + c[1], "es-dq=" + c[2]]
     if c[0] == "c09.overlap":
         out.append("overlap(parked-retries)")
+    if c[0] == "c09.stop":
+        out.append("stop-family=" + {"0": "control", "1": "stop-inside-backoff-wait", "2": "stop-between-attempts"}.get(c[9], "?"))
+        if "x" in i and "t" in i[i.index("x"):]:
+            out.append("retries-continue-after-Stop")
     if c[0] == "c09.esdq":
         return ["real-elasticsearch-output+blocking-dead-queue", "esdq-batches=" + c[3], "esdq-exhausted=%d" % sum(1 for x in c[4:] if x == "1")]
     try:
@@ -94,7 +98,7 @@ CFG = {
     "facts": [("RetriableBatcher.Out statement order", fact_out_loop),
               ("Router.Fail forwards to the dead queue only when one exists", fact_router_fail),
               ("elasticsearch onError calls Router.Fail for every event", fact_es_onerror)],
-    "rule": "small scope first (retry -1..3 x dead-queue mode none/batching/sync x failures before success 0..5 or always), one always-failing batch through the real elasticsearch output behind a real Router (retry 0..2 x dead queue on/off x 1-4 events x kinds), 12 parked-retry overlaps (c09.overlap: an always-failing batch whose retries are parked while later batches run Out on other workers; pauses checked against the batch's own retry index), 14 multi-batch runs of the real elasticsearch output with a dead-queue output that blocks on its first call (batch size 1-3, 3-6 batches, some exhausted, some succeeding), then random: workers 1..3, count 1..4 (+ byte limits), retry -1..3, retention 1-5 ms, scripts of 1-5 per-batch failure counts, 1-2 adders, dead-queue batcher workers/count 1..3, kind mixes; distinct = distinct case line; non-trivial = at least one failed send observed",
+    "rule": "small scope first (retry -1..3 x dead-queue mode none/batching/sync x failures before success 0..5 or always), one always-failing batch through the real elasticsearch output behind a real Router (retry 0..2 x dead queue on/off x 1-4 events x kinds), 18 Stop-during-retry cases (c09.stop: Router.Stop -> RetriableBatcher.Stop issued when batch 0 is told its pause / while one of its retries is parked between two attempts / control; after Stop the batch must retry to completion or exhaustion before it is committed), 12 parked-retry overlaps (c09.overlap: an always-failing batch whose retries are parked while later batches run Out on other workers; pauses checked against the batch's own retry index), 14 multi-batch runs of the real elasticsearch output with a dead-queue output that blocks on its first call (batch size 1-3, 3-6 batches, some exhausted, some succeeding), then random: workers 1..3, count 1..4 (+ byte limits), retry -1..3, retention 1-5 ms, scripts of 1-5 per-batch failure counts, 1-2 adders, dead-queue batcher workers/count 1..3, kind mixes; distinct = distinct case line; non-trivial = at least one failed send observed",
     "corr_name": "Retry.out on the observed oracle values + two Batcher.step? instances accept the observed boundary trace and compute the same tokens",
     "trusted_base": [
         "cenkalti/backoff NextBackOff and the send function are oracles: their observed results are inputs of the model",
